@@ -74,10 +74,21 @@ def loadLt (a b : Load) : Bool :=
 def fmtLoad (l : Load) : String :=
   s!"{l.region}:{l.off}:{l.width}:{if l.aligned then "a" else "u"}"
 
-/-- canonical load trace: loads of width `>= minWidth`, sorted -/
+/-- order-independent digest of one load (wrapping 64-bit arithmetic) -/
+def loadHash (l : Load) : UInt64 :=
+  let a : UInt64 := l.region.toUInt64 * 1000003 + l.off.toUInt64
+  let b : UInt64 := a * 1000003 + (l.width.toUInt64 * 2 + (if l.aligned then 1 else 0))
+  b * 0x9E3779B97F4A7C15 + 0x7F4A7C15
+
+/-- canonical load trace: loads of width `>= minWidth`; up to 512 loads are listed sorted,
+longer traces are summarised as `n<count>h<order-independent digest>` -/
 def fmtLoads (ls : List Load) (minWidth : Nat) : String :=
-  let ls := (ls.filter (fun l => l.width ≥ minWidth)).toArray.qsort loadLt
-  if ls.isEmpty then "-" else ",".intercalate (ls.toList.map fmtLoad)
+  let ls := ls.filter (fun l => l.width ≥ minWidth)
+  if ls.isEmpty then "-"
+  else if ls.length > 512 then
+    let h := ls.foldl (fun acc l => acc + loadHash l) (0 : UInt64)
+    s!"n{ls.length}h{h.toNat}"
+  else ",".intercalate ((ls.mergeSort (fun a b => !loadLt b a)).map fmtLoad)
 
 /-- `ok <value> steps=<n> loads=<...>` or `fault ...` -/
 def fmtRes (fmt : α → String) (minWidth : Nat) : Res α → String
